@@ -219,6 +219,12 @@ class RNum (α : Type) extends Add α, Sub α, Mul α, Div α where
   le : α → α → Bool
   lt : α → α → Bool
   min : α → α → α
+  max : α → α → α
+  abs : α → α
+  /-- `some k` when a magnitude `m` is so large or so small that squaring it would leave the float
+  range; `k > 0` is the factor the coordinates are divided by (a power of two in the `Float`
+  instance; over `ℝ` any positive factor gives the same value, see `dpsCore_rescale`) -/
+  rescale : α → Option α
   sqrt : α → α
   hypot : α → α → α
   cos : α → α
@@ -234,8 +240,8 @@ def dot (u v : Pt α) : α := u.x * v.x + u.y * v.y
 def norm (v : Pt α) : α := sqrt (dot v v)
 def dist (u v : Pt α) : α := norm (psub u v)
 
-/-- `distPointToSegment` (simplify.go) -/
-def distPointToSegment (p s e : Pt α) : α :=
+/-- `distPointToSegment` (simplify.go) below its range guard -/
+def dpsCore (p s e : Pt α) : α :=
   let v := psub e s
   let w := psub p s
   let c1 := dot w v
@@ -244,6 +250,17 @@ def distPointToSegment (p s e : Pt α) : α :=
   if le c2 c1 then dist p e else
   let b := c1 / c2
   dist p ⟨s.x + b * v.x, s.y + b * v.y⟩
+
+/-- `distPointToSegment` (simplify.go, with the range guard of fix 676f013: when the largest
+coordinate difference is outside `[2^-500, 2^500]` the point and the segment are translated to the
+segment start, divided by a power of two, measured, and the result is scaled back) -/
+def distPointToSegment (p s e : Pt α) : α :=
+  let v := psub e s
+  let w := psub p s
+  let m := RNum.max (RNum.max (abs v.x) (abs v.y)) (RNum.max (abs w.x) (abs w.y))
+  match rescale m with
+  | some k => k * dpsCore ⟨w.x / k, w.y / k⟩ ⟨ofNat 0, ofNat 0⟩ ⟨v.x / k, v.y / k⟩
+  | none => dpsCore p s e
 
 /-- `LineString.Length` loop with its accumulator (also `op.length`) -/
 def lengthGo : α → List (Pt α) → α
@@ -287,13 +304,29 @@ def buffer (c : Pt α) (radius : α) (segments : Int) : Except Fault (List (List
 
 end Real
 
+/-- Go's `math.Hypot` protects against overflow and underflow of the squares -/
+def floatHypot (x y : Float) : Float :=
+  let a := Float.abs x; let b := Float.abs y
+  let p := if a ≤ b then b else a
+  let q := if a ≤ b then a else b
+  if p == 0 then 0 else
+    let t := q / p
+    p * Float.sqrt (1 + t * t)
+
 instance : RNum Float where
   ofNat := Float.ofNat
   le a b := a ≤ b
   lt a b := a < b
   min a b := if a ≤ b then a else b
+  max a b := if a ≤ b then b else a
+  abs := Float.abs
+  rescale m :=
+    -- `(m >= 0x1p500 || (m <= 0x1p-500 && m > 0)) && !math.IsInf(m, 0)`; `k = Ldexp(1, e-1)`, `_, e = Frexp(m)`
+    if (Float.scaleB 1 500 ≤ m || (m ≤ Float.scaleB 1 (-500) && 0 < m)) && m < Float.ofBits 0x7ff0000000000000 then
+      some (Float.scaleB 1 (m.frExp.2 - 1))
+    else none
   sqrt := Float.sqrt
-  hypot x y := Float.sqrt (x * x + y * y)
+  hypot := floatHypot
   cos := Float.cos
   sin := Float.sin
   pi := Float.ofBits 0x400921FB54442D18
